@@ -39,6 +39,9 @@ var scripts = [][][][]string{
 	{{{"c:1|c", "t:1|ms"}, {"c:2|c|@0.25", "t:1|ms|@0.5\ns:a|s"}}},
 	// 3: three drivers
 	{{{"c:1|c"}}, {{"c:2|c"}}, {{"c:4|c\nt:7|ms"}}},
+	// 4: tagged series of every type followed, in a later batch of the same parser, by lines carrying other
+	//    tags (parsed metrics are pooled and reused: nothing kept from a batch may change afterwards)
+	{{{"u:a|s|#r:eu\nc:1|c|#r:eu\nt:1|ms|#r:eu"}, {"c:1|c|#r:us,z:1\nu:b|s|#q:1"}}, {{"u:c|s|#r:eu"}}},
 }
 
 type expect struct {
@@ -58,11 +61,16 @@ func expectOf(script [][][]string) expect {
 					nv := strings.SplitN(line, ":", 2)
 					f := strings.Split(nv[1], "|")
 					rate := 1.0
+					var tags []string
 					for _, x := range f[2:] {
 						if strings.HasPrefix(x, "@") {
 							rate, _ = strconv.ParseFloat(x[1:], 64)
 						}
+						if strings.HasPrefix(x, "#") {
+							tags = strings.Split(x[1:], ",")
+						}
 					}
+					nv[0] = seriesKey(nv[0], tags)
 					switch f[1] {
 					case "c":
 						v, _ := strconv.ParseFloat(f[0], 64)
@@ -82,6 +90,13 @@ func expectOf(script [][][]string) expect {
 		}
 	}
 	return e
+}
+
+// seriesKey identifies a series in the oracle: name and tag set (every datagram has the same sender)
+func seriesKey(name string, tags []string) string {
+	t := append([]string{}, tags...)
+	sort.Strings(t)
+	return name + "{" + strings.Join(t, ",") + "}"
 }
 
 type call struct{ snap []fx.Series }
@@ -112,18 +127,20 @@ func body(c config, r *run) func(x *vsched.Exec) {
 		ctx, mock := fx.NewClock(context.Background())
 		be := &backend{async: c.AsyncCB}
 		r.be = be
-		af := statsd.AggregatorFactoryFunc(func() statsd.Aggregator {
-			return statsd.NewMetricAggregator(nil, 5*time.Minute, 5*time.Minute, 5*time.Minute, 5*time.Minute, gostatsd.TimerSubtypes{}, 0)
-		})
-		bh := statsd.NewBackendHandler([]gostatsd.Backend{be}, 1, c.W, c.Q, af)
+		// the pipeline tail is wired by the server's own code (aggregator factory, backend handler, flusher)
+		srv := &statsd.Server{Backends: []gostatsd.Backend{be}, MaxConcurrentEvents: 1, MaxWorkers: c.W, MaxQueueSize: c.Q, FlushInterval: time.Second,
+			ExpiryIntervalCounter: 5 * time.Minute, ExpiryIntervalGauge: 5 * time.Minute, ExpiryIntervalSet: 5 * time.Minute, ExpiryIntervalTimer: 5 * time.Minute}
+		bh, runnables, err := statsd.VerifStandaloneSink(srv)
+		if err != nil {
+			panic(err)
+		}
 		in := make(chan []*statsd.Datagram)
-		vsched.GoNamed("bh.Run", func() { bh.Run(ctx) })
+		vsched.GoNamed("bh.Run", func() { runnables[0](ctx) })
 		for i := 0; i < c.P; i++ {
 			p := statsd.NewDatagramParser(in, "", false, 0, bh, 0, false, fx.Quiet())
 			vsched.GoNamed("parser", func() { p.Run(ctx) })
 		}
-		fl := statsd.NewMetricFlusher(time.Second, 0, false, bh, []gostatsd.Backend{be})
-		vsched.GoNamed("flusher", func() { fl.Run(ctx) })
+		vsched.GoNamed("flusher", func() { runnables[2](ctx) }) // [1] is the handler's own statistics emitter
 		for _, drv := range scripts[c.Script] {
 			drv := drv
 			vsched.GoNamed("driver", func() {
@@ -165,6 +182,7 @@ func check(c config, r *run, exp expect, outcomes map[string]struct{}) func(x *v
 						return "dup-in-flush", fmt.Sprintf("series %s reported twice within flush %d", s.Key(), i/c.W)
 					}
 					seen[s.Key()] = true
+					s.Name = seriesKey(s.Name, s.Tags)
 					switch s.Type {
 					case "c":
 						gotC[s.Name] += s.Count
@@ -254,7 +272,7 @@ type replay struct {
 func configs() []config {
 	var cs []config
 	if vrt.Thorough() {
-		for _, s := range []int{0, 1, 2, 3} {
+		for _, s := range []int{0, 1, 2, 3, 4} {
 			for _, p := range []int{1, 2} {
 				for _, w := range []int{1, 2} {
 					for _, q := range []int{0, 1} {
@@ -271,6 +289,7 @@ func configs() []config {
 		{P: 2, W: 2, Q: 0, Script: 1, Ticks: 1},
 		{P: 1, W: 2, Q: 1, Script: 2, Ticks: 1},
 		{P: 2, W: 1, Q: 0, Script: 3, Ticks: 1},
+		{P: 1, W: 1, Q: 1, Script: 4, Ticks: 1},
 	}
 }
 
